@@ -1,22 +1,28 @@
 """C04 - modified / valid / last-modified-time tell the truth for producers and consumers.
 
-Two correspondence streams:
+Three correspondence streams:
   engine-probe  scalar TS[int] graphs with probe nodes through hgv_engine (shared engine plug-in, unchanged)
   track         REAL standalone TSOutput objects of structured schemas (TS, TSB, fixed TSL, nestings) with 1-2
                 REAL TSInput objects bound by bind_output, driven by hgv_track with explicit evaluation times:
                 leaf writes, invalidation of a leaf / a child / a whole container, dumps of every position through
                 the output view and every input view, in the write cycle and in later quiet cycles.
+  track-bind    two REAL TSOutput objects of TS<Int> / TSS<Int> / TSD<Int,TS<Int>> and 1-3 REAL TSInput objects that are
+                bound, SAMPLED-bound (bind_output_sampled: what nested-graph boundaries and REF retargets use), re-bound
+                and unbound in ANY cycle, driven by hgv_trackbind: set / dict mutations, dumps of valid / modified / lmt /
+                value / per-tick delta views / every TSD child through both producers and every consumer, in the bind
+                cycle, in tick cycles and in the quiet cycles after them (tools/props/c04bind.py).
 """
 import itertools
 import os
 import re
 
+import c04bind as cb
 import engine_common as ec
 import engine_plugin as ep
 from vlib import Case, Stream, BUILD, VERIF, model_cmd
 
 ID = "C04"
-LEAN_MODULES = ['HgVerif.Props.C04', 'HgVerif.Model.Engine', 'HgVerif.Model.Extracted']
+LEAN_MODULES = ['HgVerif.Props.C04', 'HgVerif.Props.C04Bind', 'HgVerif.Model.Engine', 'HgVerif.Model.Extracted']
 _P = 'HgVerif.Tracking.'
 THEOREMS = [_P + n for n in [
     # writes (unchanged)
@@ -31,8 +37,15 @@ THEOREMS = [_P + n for n in [
     # the consumer side (link record of a bound TSInput)
     'linkBind_inv', 'link_step_inv', 'link_inv_run', 'consumer_eq_producer_below_root', 'consumer_eq_producer_valid_root',
     'consumer_differs_after_root_invalidate',
+]] + ['HgVerif.TrackBind.' + n for n in [
+    # consumers bound / sampled-bound / re-bound / unbound in any cycle (the link's structural transition)
+    'step_inv', 'run_inv', 'consumer_modified_eq_producer_outside_bind_cycles', 'lastBind_ne_of_no_bind_at',
+    'consumer_child_modified_eq_producer_outside_bind_cycles', 'consumer_delta_gate_eq_producer_outside_bind_cycles',
+    'sampled_bind_ticks_once', 'sampled_bind_samples_children', 'plain_first_bind_agrees', 'consumer_valid_eq_producer',
+    'consumer_lmt_eq_link', 'consumer_lmt_ge_producer', 'consumer_modified_iff_lmt_now',
+    'consumer_lmt_eq_producer_after_tick', 'consumer_lmt_after_tick_run', 'two_consumers_agree',
 ]]
-CXX_TARGETS = ['hgv_engine', 'hgv_track']
+CXX_TARGETS = ['hgv_engine', 'hgv_track', 'hgv_trackbind']
 USES_EXTRACT = True
 RULE = ('engine-probe: flat graphs with 1-3 probe nodes: a probe wakes itself every smallest step and logs '
         'value/modified/valid/last-modified-time of a PASSIVE input (so it observes cycles in which the producer did not '
@@ -59,16 +72,39 @@ RULE = ('engine-probe: flat graphs with 1-3 probe nodes: a probe wakes itself ev
         '(a container at most twice).  output view = every bound input view on all four observables; the one systematic '
         'difference (root of an invalidated target: input lmt/modified follow the link record) is reported as '
         '[C04-consumer] separately from every other message.  non-trivial = an effective invalidation observed by a later '
-        'dump, or a dump in which some valid position is modified and another is not; distinct by sha1 of the op list')
-TRUSTED = ['TSS/TSD/TSW positions are exercised on the real code by the C05/C20 drivers; the track stream covers TS, TSB and '
-           'fixed TSL (any nesting); the engine stream covers TS[int] endpoints in running graphs',
+        'dump, or a dump in which some valid position is modified and another is not; distinct by sha1 of the op list.  '
+        'track-bind: histories over two real outputs of ts / tss / tsd and 1-3 real inputs: producer mutations (w; add / rem; '
+        'set / del - every call ticks, also a non-changing one), bind / bindS on an unbound input, rebind / rebindS to the same '
+        'or the other output, unbind, in any cycle and in any order within a cycle; dumps in the bind cycle, in tick cycles and '
+        'in quiet cycles.  Decided from the dumps and the op list alone, per consumer and cycle t: VALID and the VALUE (set '
+        'members; dict keys with each child\'s valid / lmt / value) equal the producer\'s in EVERY cycle; in every cycle in '
+        'which the input was not (re)bound / unbound MODIFIED, the delta views (added, removed, modified keys) and every child\'s '
+        'modified equal the producer\'s; in the cycle of a sampled (re)bind whose target is valid the consumer reads modified '
+        '(every TSD child too; a first sampled bind presents the whole collection as added, nothing removed; added is always a '
+        'subset of the members); a plainly bound fresh input equals its producer also in the bind cycle; a consumer that is '
+        'not modified reads empty delta views and no modified child; LMT is never in the future nor before the producer\'s, '
+        'equals t exactly when the consumer reads modified, and equals the producer\'s once the producer ticked at / after '
+        'the last (re)bind (before that it is the link record: the sampled-bind time or the earlier target\'s time - '
+        'reported as feature, as a violation only with HGV_C04_STRICT_LMT=1); an unbound input reads not valid and, outside '
+        'its unbind cycle, not modified.  Producers: lmt = time of the last mutation call, modified iff lmt = t, delta views '
+        'empty when not modified, child modified => parent modified.  non-trivial = a quiet-cycle dump after a late (re)bind '
+        'to a valid output before that output\'s next tick')
+TRUSTED = ['TSW positions and the producer-side delta bookkeeping of TSS/TSD (slot stores) are exercised on the real code by '
+           'the C05/C20 drivers; the track stream covers TS, TSB and fixed TSL (any nesting); the track-bind stream covers TS, '
+           'TSS and TSD as whole targets with the TSD children read through the link; the engine stream covers TS[int] '
+           'endpoints in running graphs',
            'type-erased Value copy of Int leaves; TypeRegistry interning of the generated schemas']
 ASSUMPTIONS = ["cycle times non-decreasing; a write's time is the current cycle time",
-               'inputs are peered TSInputs bound with bind_output at the root of the output (REF / sampled rebinding is C13)']
+               'inputs are peered TSInputs bound at the root of the output with bind_output / bind_output_sampled (what REF '
+               'retargets and nested boundaries call; the REF machinery itself is C13)',
+               'track-bind: no invalidation of a bound target (that is the track stream and finding C04-consumer); the same key '
+               'is not added and removed within one cycle of one output (C05)']
 TECHNIQUE = ('Lean 4 proof (invariant lmt child <= lmt parent <= now through arbitrary write/invalidate histories on arbitrary '
              'finite trees; the recursive invalidate of base_view.cpp refined to "subtree := MIN_DT, proper ancestors := t"; link '
              'record invariant for bound inputs) + differential correspondence (probe nodes in graphs; standalone '
-             'TSOutput/TSInput objects of structured schemas) + independent reference monitors')
+             'TSOutput/TSInput objects of structured schemas) + independent reference monitors; for consumers bound in any '
+             'cycle: invariant of the link machine (bind_impl, structural transition with its lazily expiring predicate) through '
+             'arbitrary mutation / bind / sampled bind / re-bind / unbind histories')
 LEVEL_TEXT = ('Kernel-checked for every tree of time-series positions and every write/invalidate history with non-decreasing '
               'times: a write makes exactly the written position and its ancestors modified at the cycle time (parents modified '
               'whenever a child is, and only then) and notifies the observers of exactly the positions that become modified, once '
@@ -80,11 +116,21 @@ LEVEL_TEXT = ('Kernel-checked for every tree of time-series positions and every 
               'whenever the root is valid; after an invalidation of the whole target the input root keeps the invalidation '
               'time (proved as consumer_differs_after_root_invalidate; finding C04-consumer). On the real code, probe nodes '
               'and the hgv_track driver (real TSOutput + bound TSInputs of TS/TSB/TSL nestings) must agree with the model '
-              'and with an independent reference on every position in every dumped cycle.')
+              'and with an independent reference on every position in every dumped cycle. For every history of producer '
+              'mutations and of plain / sampled binds, re-binds and unbinds of an input (TS, TSS, TSD links): outside the '
+              '(re)bind cycles the consumer (and every TSD child, and the delta views) reads modified exactly when the producer '
+              'does; a sampled (re)bind to a valid output reads modified in its cycle and then never again before the next '
+              'producer tick or (re)bind; valid and value are the producer\'s; the consumer\'s last-modified-time is the link '
+              'record (>= the producer\'s, = now iff modified, = the producer\'s once it ticked after the (re)bind). The '
+              'hgv_trackbind driver must agree with that model line by line.')
 LEVEL_NOTE = ('Trusted: Lean kernel; tracking model tied to types.cpp/base_view.cpp/ts_input base_view.cpp by the two '
               'correspondence streams. The link record of a bound input is modelled from target_link.cpp (notify -> '
-              'record_target_modified); REF-blended and sampled rebinding are C13. TSS/TSD/TSW children are not in the '
-              'track stream.')
+              'record_target_modified); the sampled bind and the structural transition from target_link.cpp bind_impl / '
+              'base_view.cpp (Model/TrackBind.lean); the REF machinery above it is C13. Code, not tidy spec (modelled as coded, '
+              'examples in Props/C04Bind.lean): after a sampled (re)bind the consumer\'s lmt is the bind time until the next '
+              'producer tick; a plain re-bind / unbind keeps the earlier link record; a sampled re-bind valid -> not-yet-valid '
+              'reads modified and not valid; TSD children read modified with an older lmt in the sampled cycle. TSW children are '
+              'not in the track streams.')
 
 SCHEMAS = ['TS<Int>', 'TSB{a:TS<Int>,b:TS<Int>}', 'TSL<TS<Int>,2>',
            'TSB{a:TS<Int>,b:TSB{c:TS<Int>,d:TS<Int>}}', 'TSL<TSB{a:TS<Int>,b:TS<Int>},2>']
@@ -302,8 +348,21 @@ def _corpus():
     out = []
     if os.path.isdir(cdir):
         for f in sorted(os.listdir(cdir)):
+            if f.startswith('bind_') or not os.path.isfile(os.path.join(cdir, f)):
+                continue                                   # bind_*.txt belong to the track-bind stream
             lines = [l.rstrip('\n') for l in open(os.path.join(cdir, f)) if l.strip()]
             out.append(Case(lines, {'corpus': f, 'profile': 'corpus'}))
+    return out
+
+
+def _corpus_bind():
+    cdir = os.path.join(VERIF, 'corpus', 'C04')
+    out = []
+    if os.path.isdir(cdir):
+        for f in sorted(os.listdir(cdir)):
+            if f.startswith('bind_') and f.endswith('.txt'):
+                lines = [l.rstrip('\n') for l in open(os.path.join(cdir, f)) if l.strip()]
+                out.append(Case(lines, {'corpus': f, 'profile': 'bind:corpus'}))
     return out
 
 
@@ -316,8 +375,15 @@ def streams(rng, tier, seed):
     track += [gen_track(rng, i, rng.choice([6, 12, 25]) if quick else rng.choice([8, 20, 45])) for i in range(nt)]
     track += [gen_malformed(rng, nt + i) for i in range(12 if quick else 120)]
     track += exhaustive_tsb2(3 if quick else 4, len(track) + 100)
+    nb = 420 if quick else 9000
+    bind = _corpus_bind()
+    bind += [cb.gen_bind(rng, i, rng.choice([6, 12, 25]) if quick else rng.choice([8, 20, 45])) for i in range(nb)]
+    bind += [cb.gen_bind_malformed(rng, nb + i) for i in range(12 if quick else 120)]
+    for kind in (cb.KINDS if not quick else [rng.choice(cb.KINDS[1:])]):
+        bind += cb.exhaustive_bind(kind, len(bind) + 100)
     return [ec.engine_stream('engine-probe', progs),
-            Stream('track', [os.path.join(BUILD, 'hgv_track')], model_cmd('C04'), track)]
+            Stream('track', [os.path.join(BUILD, 'hgv_track')], model_cmd('C04'), track),
+            Stream('track-bind', [os.path.join(BUILD, 'hgv_trackbind')], model_cmd('C04Bind'), bind)]
 
 
 # ---------------------------------------------------------------------------------------------
@@ -627,6 +693,8 @@ _engine_monitor = ep.monitor_for(ID)
 
 
 def monitor(stream, case, out):
+    if stream == 'track-bind':
+        return cb.run_bind(case, out).bad[:3]
     if stream != 'track':
         return _engine_monitor(stream, case, out)
     res = _run_track(case, out)
@@ -636,6 +704,8 @@ def monitor(stream, case, out):
 
 
 def features(stream, case, out):
+    if stream == 'track-bind':
+        return cb.features(case, out)
     if stream != 'track':
         return ep.features(stream, case, out)
     res = _run_track(case, out)
@@ -648,6 +718,8 @@ def features(stream, case, out):
 
 
 def nontrivial(stream, case, out):
+    if stream == 'track-bind':
+        return cb.run_bind(case, out).nontrivial
     if stream != 'track':
         t = ec.trace_of(out)
         return " P " in " " + t and ("a=11" in t) and ("a=10" in t)
@@ -655,12 +727,16 @@ def nontrivial(stream, case, out):
 
 
 def alarm_filter(stream, case, impl_out, model_out):
+    if stream == 'track-bind':
+        return True, []         # every column of a dump is an observable
     if stream != 'track':
         return ep.alarm_filter(stream, case, impl_out, model_out)
     return True, []             # every column of a dump is an observable
 
 
 def valid_case(stream, case, impl_out, model_out):
+    if stream == 'track-bind':
+        return cb.valid_case(case, impl_out, model_out)
     if stream != 'track':
         return ep.valid_case(stream, case, impl_out, model_out)
     body = [l.split() for l in case.lines[1:] if l.strip()]
